@@ -33,6 +33,7 @@ type memConn struct {
 	addr      string
 	sslFirst  bool
 	encrypted bool // the server's output is TLS ciphertext: it cannot be parsed by the recorder
+	rdDeadline, wrDeadline time.Time
 }
 
 func newMemConn() *memConn {
@@ -202,6 +203,38 @@ func (c *memConn) RemoteAddr() net.Addr {
 	}
 	return memAddr(c.addr)
 }
-func (c *memConn) SetDeadline(t time.Time) error      { return nil }
-func (c *memConn) SetReadDeadline(t time.Time) error  { return nil }
-func (c *memConn) SetWriteDeadline(t time.Time) error { return nil }
+// deadlines are recorded: one that is still armed when the session is established (or over) makes every later
+// read or write fail once it has passed, which no plaintext or TLS session may depend on the clock for
+func (c *memConn) SetDeadline(t time.Time) error {
+	c.mu.Lock()
+	c.rdDeadline, c.wrDeadline = t, t
+	c.mu.Unlock()
+	return nil
+}
+func (c *memConn) SetReadDeadline(t time.Time) error {
+	c.mu.Lock()
+	c.rdDeadline = t
+	c.mu.Unlock()
+	return nil
+}
+func (c *memConn) SetWriteDeadline(t time.Time) error {
+	c.mu.Lock()
+	c.wrDeadline = t
+	c.mu.Unlock()
+	return nil
+}
+
+// armedDeadline reports a deadline that has been set on the connection and not cleared again
+func (c *memConn) armedDeadline() string {
+	c.mu.Lock()
+	defer c.mu.Unlock()
+	switch {
+	case !c.wrDeadline.IsZero() && !c.rdDeadline.IsZero():
+		return "read and write"
+	case !c.wrDeadline.IsZero():
+		return "write"
+	case !c.rdDeadline.IsZero():
+		return "read"
+	}
+	return ""
+}
